@@ -207,6 +207,53 @@ theorem C05_block_complete_partial {E : Env} {g : Int} {s s' : St} {ty : Nat} {c
     sel.length = min (if cp.checkCount ≤ 1 then 1 else cp.checkCount.toNat) (below s.idx ty K).length :=
   liquidateBlock_complete hW hI h
 
+/-- "… the lowest-ratio CDPs below it (beyond 18-decimal rounding) are seized": the range scan cannot miss a
+    CDP that is below the liquidation ratio by more than the rounding — a CDP whose stored index ratio is NOT
+    below `normalizedRatio` has `CR_liq > L − ε'`, `ε' = 2 + L²/(price·P + L) + price·(P+1)/P²` ulp
+    (`(CR + 2)·P²·(price·P + L) > price·(P³·L − (P+1)(price·P + L))` on mantissas).  Together with
+    `C05_block_complete_partial` (the pass takes the first `count` entries of the scan range, lowest first):
+    every CDP with `CR_liq ≤ L − ε'` lies in the scan range and is seized unless `count` lower entries precede it. -/
+theorem C05_block_complete_bound (c d : Int) (cf dcf : Nat) (price L : Dec) (hc : 0 < c)
+    (hd : P ≤ (baseUnits d dcf).m) (hd2 : (baseUnits d dcf).m < maxSortable.m)
+    (hp : 0 < price.m) (hL : 0 < L.m)
+    (hkey : (c2d c cf d dcf).m < maxSortable.m)
+    (hnsel : blockSelects (sortKey (c2d c cf d dcf)) price L = false) :
+    ∃ r, collRatio c cf d 0 dcf price = some r ∧
+      price.m * (P * P * P * L.m - (P + 1) * (price.m * P + L.m)) < (r.m + 2) * (P * P) * (price.m * P + L.m) := by
+  have hD0 : (baseUnits d dcf).m ≠ 0 := by have := P_pos; omega
+  have hc2d : c2d c cf d dcf = Dec.quo (baseUnits c cf) (baseUnits d dcf) := by
+    unfold c2d; simp only [hD0, false_or]
+    have : ¬ (baseUnits d dcf).m ≥ maxSortable.m := by omega
+    simp only [this, ite_false]
+  have hn : ¬ (Dec.quo (baseUnits c cf) (baseUnits d dcf)).m < (normRatio price L).m := by
+    intro hlt
+    unfold blockSelects at hnsel
+    have hk : sortKey (c2d c cf d dcf) = (c2d c cf d dcf).m := by
+      unfold sortKey; simp only [show ¬ (c2d c cf d dcf).m ≥ maxSortable.m by omega, ite_false]
+    rw [hk, hc2d] at hnsel
+    have : (Dec.quo (baseUnits c cf) (baseUnits d dcf)).m < sortKey (normRatio price L) := by
+      unfold sortKey
+      split
+      · rw [← hc2d]; exact hkey
+      · exact hlt
+    simp [this] at hnsel
+  have hbound := block_bound_rev_m (baseUnits c cf) (baseUnits d dcf) price L
+    (baseUnits_nonneg c cf (by omega)) hd hp hL hn
+  unfold collRatio
+  have hc0 : ¬ c = 0 := by omega
+  simp only [hc0, ite_false]
+  have hadd : Dec.add (baseUnits d dcf) (baseUnits 0 dcf) = baseUnits d dcf := by
+    have h0 : (baseUnits 0 dcf).m = 0 := by rw [baseUnits_m]; simp
+    show (⟨(baseUnits d dcf).m + (baseUnits 0 dcf).m⟩ : Dec) = baseUnits d dcf
+    rw [h0, Int.add_zero]
+  rw [hadd]
+  simp only [hD0, ite_false]
+  exact ⟨_, rfl, hbound⟩
+
+/-- the bound is not vacuous: 30 collateral / 10 debt at price 0.6 (CR = 1.8 ≥ 1.5) is outside the scan range -/
+example : blockSelects (sortKey (c2d 3000000000 8 10000000 6)) ⟨600000000000000000⟩ ⟨1500000000000000000⟩ = false ∧
+    (c2d 3000000000 8 10000000 6).m < maxSortable.m := by decide
+
 /-- non-vacuity: in `exAtRatio` the scan selects the CDP and the pass succeeds -/
 example : (liquidateBlock exEnv exAtRatio 0 exColl ⟨500000000000000000⟩).isOk = true ∧
     (below exAtRatio.idx 0 (sortKey (normRatio ⟨500000000000000000⟩ exColl.liqRatio))).length = 1 := by
